@@ -145,3 +145,9 @@ void sweep_url_dec() {
       if (L == 3 && p == 4) sample("url hostile: every truncation / A20 substitution of \"" + enc + "\" and all strings of length<=3"); } }
 }
 
+
+// alignment sweep: hex encoder input / fixed-buffer decoder output at the active buffer start offsets (URL coding has no raw-pointer API)
+void align_hex() {
+  for_small_inputs(40, hex_roundtrip_one);
+  for_small_hostile(3, hex_hostile_one);
+}
